@@ -262,6 +262,7 @@ func c06History(c *Ctx, r *mon.Rng, mem *mon.Mem, hi int, shapes *mon.Distinct) 
 	mem.Reset()
 	var rc mon.RetCounter
 	hn, hh := rc.Handlers()
+	withHandlers := r.Bool() // RETN/RETI must do their architectural work with or without a handler
 	var s z80.States
 	s.PC = 0x0100 + uint16(r.Intn(0x4000))
 	s.SP = 0xf000
@@ -273,6 +274,9 @@ func c06History(c *Ctx, r *mon.Rng, mem *mon.Mem, hi int, shapes *mon.Distinct) 
 	s.IFF1 = r.Bool()
 	s.IFF2 = s.IFF1
 	cpu := z80.CPU{States: s, Memory: mem, RETNHandler: hn, RETIHandler: hh}
+	if !withHandlers {
+		cpu.RETNHandler, cpu.RETIHandler = nil, nil
+	}
 	// model
 	mIFF1, mIFF2, mIM := s.IFF1, s.IFF2, s.IM
 	var pend *irqKind
@@ -464,6 +468,9 @@ func c06History(c *Ctx, r *mon.Rng, mem *mon.Mem, hi int, shapes *mon.Distinct) 
 				return
 			}
 		}
+		if !withHandlers {
+			wantRETN, wantRETI = 0, 0
+		}
 		if rc.RETN != wantRETN || rc.RETI != wantRETI {
 			fail(step, fmt.Sprintf("handler notifications RETN=%d RETI=%d, want %d/%d", rc.RETN, rc.RETI, wantRETN, wantRETI))
 			return
@@ -586,9 +593,11 @@ func runC06(c *Ctx) {
 	{
 		rig := NewStepRig(uint64(c.Seed) ^ 0x6)
 		r := mon.NewRng(uint64(c.Seed) ^ 0x66)
-		for _, enc := range encs {
+		inScope := inScopeKeys()
+		for _, enc := range AllEncodings() {
 			for k := 0; k < 16; k++ {
 				sc := MakeStepCase(enc, r, k)
+				sc.NoHandlers = k%4 == 3
 				o := rig.Run(&sc)
 				hsweep++
 				wn, wi := 0, 0
@@ -598,11 +607,32 @@ func runC06(c *Ctx) {
 				if enc.Table == ref.TED && enc.Op == 0x4d {
 					wi = 1
 				}
-				if rig.RC.RETN != wn || rig.RC.RETI != wi || o.Bad&BadHandler != 0 {
-					c.R.Violation("C06/handler-sweep/"+enc.String(), rig.Witness(enc, &sc, &o))
+				if sc.NoHandlers {
+					wn, wi = 0, 0
+				}
+				gotN, gotI := rig.RC.RETN, rig.RC.RETI
+				ok := gotN == wn && gotI == wi
+				// the undocumented mirrors of RETN (ED 55 65 75 5D 6D 7D) are not
+				// implemented on this tree (no notification); an implementation
+				// that executes them must notify the RETN handler, never RETI's
+				mirror := enc.Table == ref.TED && enc.Op&0xc7 == 0x45 && enc.Op != 0x45 && enc.Op != 0x4d
+				if mirror && !sc.NoHandlers && gotI == 0 && gotN <= 1 {
+					ok = true
+				}
+				if !ok || (inScope[enc.Key()] && o.Bad&BadHandler != 0) {
+					w := rig.Witness(enc, &sc, &o)
+					w["what"] = fmt.Sprintf("handler notifications RETN=%d RETI=%d, want %d/%d", gotN, gotI, wn, wi)
+					c.R.Violation("C06/handler-sweep/"+enc.String(), w)
+				}
+				// RETN/RETI must do their architectural work with and without a handler
+				if inScope[enc.Key()] && enc.Table == ref.TED && (enc.Op == 0x45 || enc.Op == 0x4d) && o.Bad&(BadState|BadMem) != 0 {
+					w := rig.Witness(enc, &sc, &o)
+					w["what"] = fmt.Sprintf("RETN/RETI outcome differs from the Z80's (handlers registered: %v)", !sc.NoHandlers)
+					c.R.Violation(fmt.Sprintf("C06/retn-reti-state/%s/handlers=%v", enc.String(), !sc.NoHandlers), w)
 				}
 			}
 		}
+		_ = encs
 	}
 
 	cellList := map[string]int64{}
@@ -622,7 +652,7 @@ func runC06(c *Ctx) {
 	c.R.Set("distinct_nontrivial", distinct.N()+shapes.N())
 	c.R.Set("exhaustive", false)
 	c.R.Set("exhaustive_over", "type{NMI,INT} x IM{0,1,2} x IFF1 x IFF2 x {running, parked on HALT} (48 control combinations, each with data samples; all 256 vector bytes in mode 2, 8 RST and CALL nn in mode 0)")
-	c.R.Set("rule", "(1) every control combination x boundary-biased data (PC=FFFF, SP in {0,1,2,FFFF}, stack bytes meeting PC): one Step with the request pending is judged by the abstract controller transcribed from the property (consumed?, handler address, IFF1/IFF2, SP-2, the two stack bytes = PC except in mode 0, no other register or memory change, no program fetch; refused: identical to the twin Step without a request and the request object untouched); (2) seeded histories of length 8..40 over {EI, DI, NOP, HALT, RETN, RETI, LD A,I, LD A,R, IM 0/1/2, INC B, raise NMI, raise INT} on an instruction tape, nesting depth <= 3, model stepped alongside (acceptance exactly when due, EI-delay of one instruction tolerated, RETI IFF tolerance, P/V of LD A,I = model IFF2, handler notifications exactly once per RETN/RETI); (3) all 930 encodings x 16 states: handlers silent except ED 45 / ED 4D. Distinct = distinct single-step cases (control, data) + distinct history shapes (event-kind sequences)")
+	c.R.Set("rule", "(1) every control combination x boundary-biased data (PC=FFFF, SP in {0,1,2,FFFF}, stack bytes meeting PC): one Step with the request pending is judged by the abstract controller transcribed from the property (consumed?, handler address, IFF1/IFF2, SP-2, the two stack bytes = PC except in mode 0, no other register or memory change, no program fetch; refused: identical to the twin Step without a request and the request object untouched); (2) seeded histories of length 8..40 over {EI, DI, NOP, HALT, RETN, RETI, LD A,I, LD A,R, IM 0/1/2, INC B, raise NMI, raise INT} on an instruction tape, nesting depth <= 3, model stepped alongside (acceptance exactly when due, EI-delay of one instruction tolerated, RETI IFF tolerance, P/V of LD A,I = model IFF2, handler notifications exactly once per RETN/RETI); (3) ALL 1786 openings of the seven tables (implemented or not) x 16 states, a quarter of them with no handler registered: handlers silent except ED 45 (RETN once) / ED 4D (RETI once) - the unimplemented RETN mirrors ED 55/65/75/5D/6D/7D may at most notify RETN's handler - and RETN/RETI themselves equal to the reference model with and without handlers; half of the histories run without handlers. Distinct = distinct single-step cases (control, data) + distinct history shapes (event-kind sequences)")
 	c.R.Assume("mode 0: the pushed return address is not judged here (C07's subject); requests with empty data in mode 0/2 or IM outside 0..2 get no verdict (C12)")
 	if len(cells) < 48 {
 		c.R.Inconclusive(fmt.Sprintf("only %d of 48 control cells observed", len(cells)))
